@@ -43,7 +43,7 @@ func (c *FCtx) bodyEnv(st *State, pos token.Pos) *CEnv {
 	env.lookup = func(name string, s *State, old bool) (Val, bool) {
 		if strings.HasPrefix(name, "range_") {
 			for n, obj := range c.rangeCtr {
-				if fmt.Sprintf("range_%d", fi.Loops[n]) == name {
+				if fmt.Sprintf("range_%d", loopRecorded(fi, c.eng.cs.Funcs[fi.Key], fi.Loops[n])) == name {
 					if id, ok := s.vars[obj]; ok {
 						return s.cells[id], true
 					}
@@ -52,7 +52,7 @@ func (c *FCtx) bodyEnv(st *State, pos token.Pos) *CEnv {
 			// the loop has been rewritten as `for i := 0; i < len(x); i++`: its counter is the variable of the init statement
 			for n, ord := range fi.Loops {
 				fs, isFor := n.(*ast.ForStmt)
-				if !isFor || fmt.Sprintf("range_%d", ord) != name || fs.Init == nil {
+				if !isFor || fmt.Sprintf("range_%d", loopRecorded(fi, c.eng.cs.Funcs[fi.Key], ord)) != name || fs.Init == nil {
 					continue
 				}
 				if as, ok := fs.Init.(*ast.AssignStmt); ok && as.Tok == token.DEFINE && len(as.Lhs) == 1 {
@@ -108,7 +108,7 @@ func (c *FCtx) bodyEnv(st *State, pos token.Pos) *CEnv {
 							continue
 						}
 						for n, ord := range fi.Loops {
-							if fmt.Sprintf("%di", ord) != t && fmt.Sprintf("%dk", ord) != t {
+							if ro := loopRecorded(fi, con, ord); fmt.Sprintf("%di", ro) != t && fmt.Sprintf("%dk", ro) != t {
 								continue
 							}
 							if ctr, ok := c.rangeCtr[n]; ok && n.Pos() <= pos && pos <= n.End() {
